@@ -414,7 +414,7 @@ class GeoStoreMachine(StoreMachine):
                            geo.block_order, min(geo.num_columns, 4)))
             ctx.digest.add('NEW', repr(snap_geo(geo)))
         elif kind == 'EDIT':
-            slot, which = ch[0] % self.SLOTS, EDITS[ch[1] % len(EDITS)]
+            slot, which = self.pick_slot(ch[0]), EDITS[ch[1] % len(EDITS)]
             geo = self.objs.get(slot)
             if geo is None or mesh_problems(geo) or not edge_connected(geo):
                 ctx.stats['skip_EDIT'] += 1
@@ -444,7 +444,7 @@ class GeoStoreMachine(StoreMachine):
             ctx.fp.append(('E', which))
             ctx.digest.add('EDIT', which, repr(snap_geo(geo)))
         elif kind == 'W':
-            slot, ni = ch[0] % self.SLOTS, ch[1] % 3
+            slot, ni = self.pick_slot(ch[0]), ch[1] % 3
             geo = self.objs.get(slot)
             if geo is None or not self.writable(geo):
                 ctx.stats['skip_W_domain'] += 1
@@ -452,9 +452,9 @@ class GeoStoreMachine(StoreMachine):
             cfg = {'unit': geo.unit_type, 'conv': geo.convention, 'atm': geo.atmosphere_type}
             self.do_write(slot, self.NAMES[ni], cfg, fault)
         elif kind == 'R':
-            self.do_read(self.NAMES[ch[0] % 3], None if ch[1] == 3 else ch[1], fault)
+            self.do_read(self.pick_name(ch[0]), None if ch[1] == 3 else ch[1], fault)
         elif kind == 'CYCLE':
-            self.do_cycle(self.NAMES[ch[0] % 3])
+            self.do_cycle(self.pick_name(ch[0]))
         elif kind == 'FOREIGN':
             slot, sub, sub2, nx, ny, nz, atm, conv, opt = ch[:9]
             data, snap = foreign_geo(sub, 1 + (nx - 1) % 5, 1 + (ny - 1) % 5, 1 + (nz - 1) % 4,
